@@ -353,6 +353,57 @@ fn judge_nested(gv: &[E], gf: &[E], t: &[&str], acc: &mut Acc) {
     }
 }
 
+/// One definition per OS: several items of one name, each behind its own guard (and optionally one without). Each
+/// guard is judged on its own; with several accepted guards every accepted definition is there.
+fn judge_homonyms(kind: &str, guards: &[Option<E>], t: &[&str], acc: &mut Acc) {
+    let mut src = String::new();
+    for (i, g) in guards.iter().enumerate() {
+        let a = g.as_ref().map(|e| format!("#[cfg({})]\n", e.render())).unwrap_or_default();
+        src.push_str(&match kind {
+            "struct" => format!("#[typeshare]\n{a}pub struct Conn {{ pub m{i}: u32 }}\n"),
+            "enum" => format!("#[typeshare]\n{a}pub enum Conn {{ M{i}, Other }}\n"),
+            "alias" => format!("#[typeshare]\n{a}pub type Conn = Vec<{}>;\n", ["u8", "u16", "u32"][i]),
+            _ => format!("#[typeshare]\n{a}pub const CONN: u32 = {i};\n"),
+        });
+    }
+    src.push_str("#[typeshare]\npub struct Control { pub x: u32 }\n");
+    let expected: Vec<bool> = guards.iter().map(|g| g.as_ref().map(|e| keep(std::slice::from_ref(e), t).0).unwrap_or(true)).collect();
+    let cfg = Cfg { target_os: t.iter().map(|s| s.to_string()).collect(), ..Cfg::plain() };
+    acc.parses += 1;
+    acc.evals += guards.len() as u64;
+    if !t.is_empty() {
+        acc.nontrivial += 1;
+    }
+    let observed: Result<Vec<bool>, String> = match pipeline::parse_only(&[SrcFile::single(src.clone())], &cfg) {
+        Ok(m) => match m.values().next() {
+            Some(pd) if pd.errors.is_empty() => Ok((0..guards.len())
+                .map(|i| match kind {
+                    "struct" => pd.structs.iter().any(|s| s.id.original == "Conn" && s.fields.iter().any(|f| f.id.original == format!("m{i}"))),
+                    "enum" => pd.enums.iter().any(|e| e.shared().id.original == "Conn" && e.shared().variants.iter().any(|v| v.shared().id.original == format!("M{i}"))),
+                    "alias" => pd.aliases.iter().any(|a| a.id.original == "Conn" && a.r#type.to_string() == format!("Vec<{}>", ["u8", "u16", "u32"][i])),
+                    _ => pd.consts.iter().any(|c| c.id.original == "CONN" && matches!(c.expr, typeshare_core::rust_types::RustConstExpr::Int(v) if v == i as i128)),
+                })
+                .collect()),
+            Some(pd) => Err(format!("parse errors: {}", pd.errors[0].error)),
+            None => Err("nothing parsed".into()),
+        },
+        Err(o) => Err(format!("failure: {}", o.kind())),
+    };
+    match observed {
+        Ok(o) if o == expected => {
+            acc.kept += expected.iter().filter(|k| **k).count() as u64;
+            acc.dropped += expected.iter().filter(|k| !**k).count() as u64;
+        }
+        other => {
+            let show = |v: &[bool]| v.iter().map(|b| if *b { "kept" } else { "dropped" }).collect::<Vec<_>>().join("/");
+            acc.vios.add(Violation {
+                sig: format!("C13|one-definition-per-os|kind={kind}|expected={}|observed={}", show(&expected), match &other { Ok(o) => show(o), Err(e) => e.split(':').next().unwrap_or("").to_string() }),
+                detail: json!({"guards": guards.iter().map(|g| g.as_ref().map(|e| e.render())).collect::<Vec<_>>(), "target_os": t, "expected": show(&expected), "observed": format!("{other:?}"), "source": src}),
+            });
+        }
+    }
+}
+
 fn merge(rep: &mut Report, name: &str, accs: Vec<Acc>, stats: crate::explore::ExploreStats, extra: serde_json::Value) {
     let mut inputs = 0u64;
     let mut nontrivial = 0u64;
@@ -481,6 +532,41 @@ pub fn run(args: &[String]) -> i32 {
             u64::MAX,
         );
         merge(&mut rep, "guarded_field_in_guarded_variant", accs, stats, json!({"expr_depth": 2, "leaves": 5, "pairs": "every (variant guard, field guard)", "target_lists": 16}));
+    }
+    // 1d. one definition per OS: two items of one name behind a guard each (leaf or not(leaf)), optionally a third without
+    {
+        let lists = &lists4;
+        const HKINDS: [&str; 4] = ["struct", "enum", "alias", "const"];
+        let (accs, stats) = explore(
+            |ch| {
+                ch.choose("kind", HKINDS.len());
+            },
+            |ch, acc: &mut Acc| {
+                let kind = HKINDS[ch.choose("kind", HKINDS.len())];
+                let guard = |ch: &mut Chooser| {
+                    let l = gen_expr(ch, 0, &LEAVES_FULL);
+                    if ch.flag("negate") {
+                        E::Not(Box::new(l))
+                    } else {
+                        l
+                    }
+                };
+                let mut guards = vec![Some(guard(ch)), Some(guard(ch))];
+                if ch.flag("third_without_guard") {
+                    guards.push(None);
+                }
+                let ti = ch.choose("targets", lists.len());
+                if ti == 0 {
+                    acc.inputs += 1;
+                }
+                judge_homonyms(kind, &guards, &lists[ti], acc);
+            },
+            Mode::Product,
+            3,
+            report::threads(),
+            u64::MAX,
+        );
+        merge(&mut rep, "one_definition_per_os", accs, stats, json!({"kinds": HKINDS, "guards": "two, each a leaf or not(leaf) over 5 leaves; optionally a third item without guard", "target_lists": 16, "observed": "which of the same-named definitions are in the parsed and reconciled data, told apart by their members"}));
     }
     // 2. two separate cfg attributes, each depth ≤ 2 (70 × 70), and three of depth 1 leaves
     {
